@@ -136,6 +136,7 @@ class Images(productmd.common.MetadataBase):
     def __init__(self):
         super(Images, self).__init__()
         self.header = Header(self, "productmd.images")
+        self.header.set_current_version()
         self.compose = Compose(self)
         self.images = {}
 
